@@ -674,6 +674,11 @@ def run(case) -> dict:
                     return None
                 return super()._lookup(host, port)
 
+    if alter[0] == "strip" and len(alter) > 3 and alter[3] == "clock-step":
+        # ... and the wall clock steps forward (NTP correction, resumed VM, a handshake reply held back by the on-path party) while the
+        # last handshake message of every connection is in flight: by the time the request is made the context is "old"
+        plan["delivery"] = {"clock_jumps": [[m_, 0, alter[4]] for m_ in (0, 1, 2)]}
+        state["replace_faults"] = True  # (whatever the server answers - it may refuse a request that is not sealed - the adversary's reply arrives instead)
     if alter[0] == "no-credential":
         # fault: the caller's credential cannot be acquired for the requested provider (the call must fail, not go on unauthenticated)
         plan["cred_fault"] = alter[2]
@@ -778,7 +783,7 @@ class C16(common.Check):
     level = "fault_enumeration"
     rule = ("case = (security context: StubCtx with/without header signing, real NTLM, real Negotiate->NTLM; operation protect|unprotect; "
             "flavour; alteration of the GetKey reply by an on-path adversary without the session key). Alterations: security trailer stripped "
-            "and a well-formed cleartext reply with adversary seed keys / public key substituted (also: zeroed signature, auth level NONE, a dummy signature of 1..32 octets that is not the context's signature length, a cleartext reply under another call id, an unauthenticated shutdown PDU in front of the forgery); "
+            "and a well-formed cleartext reply with adversary seed keys / public key substituted (also: zeroed signature, auth level NONE, a dummy signature of 1..32 octets that is not the context's signature length, a cleartext reply under another call id, an unauthenticated shutdown PDU in front of the forgery, the same cleartext forgery after the wall clock stepped 5 min .. 30 d forward during the handshake); "
             "every single-bit flip of the authentic reply (all bits for StubCtx and NTLM in thorough; strided in quick); frag_len / auth_len / "
             "pad_length / alloc_hint / auth level / auth type rewritten to {0,1,true+-1,true+-16,0xFFFF}; sealed stub substituted; sealed reply "
             "of an earlier connection replayed; handshake man-in-the-middle (security trailers removed from bind_ack / alter_context_resp, every "
@@ -813,6 +818,9 @@ class C16(common.Check):
                         for mode in ("plain", "zero-sig", "level-none", "sig-len-8", "sig-len-12", "sig-len-1", "sig-len-4", "sig-len-17", "sig-len-32",
                                      "plain-callid+1", "plain-callid-1", "plain-callid^bit", "plain-callid=0", "shutdown-first", "shutdown-then-authentic-flipped"):
                             out.append([ctxname, "p256", opname, fl, ["strip", kind, mode]])
+                    for kind in ("seed", "pub"):
+                        for secs in (301.0, 3600.0, 86400.0 * 30):
+                            out.append([ctxname, "p256", opname, fl, ["strip", kind, "plain", "clock-step", secs]])
                     out.append([ctxname, "p256", opname, fl, ["replay"]])
                     for fk in ("last-only", "first-last"):
                         out.append([ctxname, "p256", opname, fl, ["fragment", "seed", fk]])
